@@ -116,6 +116,19 @@ func c20Server() (*samlidp.Server, *samlidp.MemoryStore) {
 	put("/users/alice", samlidp.User{Name: "alice", Email: "alice@example.com", HashedPassword: minHash("p1")})
 	var md saml.EntityDescriptor
 	xml.Unmarshal(c19Metadata("A"), &md)
+	// the registered SP asks for attributes: with a NameFormat, without one, and with values (what every login for it reads while it
+	// builds the assertion)
+	if len(md.SPSSODescriptors) > 0 {
+		tr := true
+		md.SPSSODescriptors[0].AttributeConsumingServices = []saml.AttributeConsumingService{{Index: 1, IsDefault: &tr,
+			ServiceNames: []saml.LocalizedName{{Lang: "en", Value: "service A"}},
+			RequestedAttributes: []saml.RequestedAttribute{
+				{Attribute: saml.Attribute{Name: "urn:oid:0.9.2342.19200300.100.1.3", FriendlyName: "mail", NameFormat: "urn:oasis:names:tc:SAML:2.0:attrname-format:uri"}, IsRequired: &tr},
+				{Attribute: saml.Attribute{Name: "department"}},
+				{Attribute: saml.Attribute{Name: "tier", NameFormat: "urn:oasis:names:tc:SAML:2.0:attrname-format:basic", Values: []saml.AttributeValue{{Type: "xs:string", Value: "gold"}}}},
+				{Attribute: saml.Attribute{Name: "region", NameFormat: "urn:oasis:names:tc:SAML:2.0:attrname-format:unspecified", Values: []saml.AttributeValue{{Type: "xs:string", Value: "eu"}}}},
+			}}}
+	}
 	put("/services/s1", samlidp.Service{Name: "s1", Metadata: md})
 	var mdx saml.EntityDescriptor
 	xml.Unmarshal(c19Metadata("X"), &mdx)
@@ -518,13 +531,15 @@ var kvModel = porcupine.Model{
 		case "delete":
 			delete(m, in.key)
 			return true, enc()
-		case "list":
+		case "list": // in.key is the prefix; a key equal to the prefix is listed too (under the empty name)
 			var ks []string
 			for k := range m {
-				ks = append(ks, k)
+				if strings.HasPrefix(k, in.key) {
+					ks = append(ks, strings.TrimPrefix(k, in.key))
+				}
 			}
 			sort.Strings(ks)
-			return strings.Join(ks, ",") == out.keys, state
+			return fmt.Sprintf("%d:%s", len(ks), strings.Join(ks, ",")) == out.keys, state
 		}
 		return false, state
 	},
@@ -584,9 +599,9 @@ func c20StorePrograms(c *core.Ctx, note func(sched.Stats)) {
 						case "delete":
 							store.Delete(in.key)
 						case "list":
-							ks, _ := store.List("")
+							ks, _ := store.List(in.key)
 							sort.Strings(ks)
-							out = kvOut{keys: strings.Join(ks, ",")}
+							out = kvOut{keys: fmt.Sprintf("%d:%s", len(ks), strings.Join(ks, ","))}
 						}
 						ret := int64(h.Step())
 						hmu.Lock()
@@ -640,6 +655,47 @@ func c20StorePrograms(c *core.Ctx, note func(sched.Stats)) {
 			cs = append(cs, strings.Join(os, ","))
 		}
 		return strings.Join(cs, " || ")
+	}
+	// List with prefixes that are shorter than, equal to and longer than stored keys: every single-client program of up to three
+	// operations and every pair of single operations, over keys that are prefixes of one another
+	{
+		alpha2 := []kvIn{{"put", "a", "v1"}, {"put", "aa", "v2"}, {"put", "b", "v3"}, {"delete", "a", ""}, {"list", "", ""}, {"list", "a", ""}, {"list", "aa", ""}, {"list", "b", ""}, {"list", "k1", ""}, {"list", "k", ""}}
+		var seqs2 [][]kvIn
+		var gen2 func(p []kvIn)
+		gen2 = func(p []kvIn) {
+			if len(p) > 0 {
+				seqs2 = append(seqs2, append([]kvIn{}, p...))
+			}
+			if len(p) == 3 {
+				return
+			}
+			for _, a := range alpha2 {
+				gen2(append(p, a))
+			}
+		}
+		gen2(nil)
+		for _, p := range seqs2 {
+			if p[len(p)-1].op != "list" {
+				continue // only a final List observes anything
+			}
+			for _, fresh := range []bool{false, true} {
+				p, fresh := p, fresh
+				ps := [][]kvIn{p}
+				c.Case(fmt.Sprintf("store/1c-prefixes/fresh=%v/%s", fresh, progName(ps)), func(t *core.T) { runProg(t, ps, fresh, progName(ps), -1) })
+			}
+		}
+		for i, a := range alpha2 {
+			for j, b := range alpha2 {
+				if j < i || a.op == "list" && b.op == "list" {
+					continue
+				}
+				for _, fresh := range []bool{false, true} {
+					fresh := fresh
+					ps := [][]kvIn{{a}, {b}}
+					c.Case(fmt.Sprintf("store/2c-prefixes/fresh=%v/%s", fresh, progName(ps)), func(t *core.T) { runProg(t, ps, fresh, progName(ps), -1) })
+				}
+			}
+		}
 	}
 	// two clients
 	for i, a := range seqs {
